@@ -581,6 +581,128 @@ fn w_case(line: &str) -> String {
     }
 }
 
+// ---------------------------------------------------------------------------
+// `I`: the identity impls (a slice of S as a slice of S, a slice of F as a slice of F; shared, mutable, boxed) and
+// the free-function forms `to_boxed_frame_slice` / `to_boxed_sample_slice`
+
+macro_rules! ident_body {
+    ($S:ident, $g:expr) => {{
+        let g: &Vec<Vec<i64>> = $g;
+        let d = &g[1];
+        let mut out: Vec<String> = Vec::new();
+        let mut v: Vec<$S> = d.iter().map(|&x| <$S as Smp>::from_i64(x)).collect();
+        let p0 = v.as_ptr() as usize;
+        // samples as samples: FromSampleSlice / ToSampleSlice (+ Mut) for &[S]
+        out.push(match dasp_slice::from_sample_slice::<&[$S], $S>(&v[..]) {
+            None => obs(0, &[]),
+            Some(ss) => sview::<$S>(p0, ss),
+        });
+        out.push(sview::<$S>(p0, dasp_slice::to_sample_slice::<&[$S], $S>(&v[..])));
+        out.push(match dasp_slice::from_sample_slice_mut::<&mut [$S], $S>(&mut v[..]) {
+            None => obs(0, &[]),
+            Some(ss) => obs(1, &[b(ss.as_ptr() as usize == p0), ss.len() as i64]),
+        });
+        {
+            let ss = dasp_slice::to_sample_slice_mut::<&mut [$S], $S>(&mut v[..]);
+            out.push(obs(1, &[b(ss.as_ptr() as usize == p0), ss.len() as i64]));
+        }
+        // frames as frames: FromFrameSlice / ToFrameSlice (+ Mut) for &[F], F = [S; 2]
+        let k = v.len() / 2;
+        let mut fv: Vec<[$S; 2]> = (0..k).map(|i| [v[2 * i], v[2 * i + 1]]).collect();
+        let q0 = fv.as_ptr() as usize;
+        out.push(fview::<$S, 2>(q0, dasp_slice::from_frame_slice::<&[[$S; 2]], [$S; 2]>(&fv[..])));
+        out.push(match dasp_slice::to_frame_slice::<&[[$S; 2]], [$S; 2]>(&fv[..]) {
+            None => obs(0, &[]),
+            Some(fs) => fview::<$S, 2>(q0, fs),
+        });
+        {
+            let fs = dasp_slice::from_frame_slice_mut::<&mut [[$S; 2]], [$S; 2]>(&mut fv[..]);
+            out.push(obs(1, &[b(fs.as_ptr() as usize == q0), fs.len() as i64]));
+        }
+        out.push(match dasp_slice::to_frame_slice_mut::<&mut [[$S; 2]], [$S; 2]>(&mut fv[..]) {
+            None => obs(0, &[]),
+            Some(fs) => obs(1, &[b(fs.as_ptr() as usize == q0), fs.len() as i64]),
+        });
+        // boxed identities: every number is taken before any string is built
+        let mut rec: Vec<Vec<i64>> = Vec::with_capacity(16);
+        {
+            let bx: Box<[$S]> = v.clone().into_boxed_slice();
+            let p = bx.as_ptr() as usize;
+            let l0 = live();
+            let r = dasp_slice::from_boxed_sample_slice::<Box<[$S]>, $S>(bx);
+            let l1 = live();
+            match r {
+                None => rec.push(vec![0, l1 - l0]),
+                Some(sb) => {
+                    let mut o = vec![1, b(sb.as_ptr() as usize == p), sb.len() as i64, l1 - l0];
+                    o.extend(flat_samples::<$S>(&sb[..]));
+                    rec.push(o);
+                    let l2 = live();
+                    let sb2 = dasp_slice::to_boxed_sample_slice::<Box<[$S]>, $S>(sb);
+                    let l3 = live();
+                    let mut o = vec![1, b(sb2.as_ptr() as usize == p), sb2.len() as i64, l3 - l2];
+                    o.extend(flat_samples::<$S>(&sb2[..]));
+                    rec.push(o);
+                }
+            }
+            let fb: Box<[[$S; 2]]> = fv.clone().into_boxed_slice();
+            let q = fb.as_ptr() as usize;
+            let l0 = live();
+            let r = dasp_slice::to_boxed_frame_slice::<Box<[[$S; 2]]>, [$S; 2]>(fb);
+            let l1 = live();
+            match r {
+                None => rec.push(vec![0, l1 - l0]),
+                Some(fb1) => {
+                    let mut o = vec![1, b(fb1.as_ptr() as usize == q), fb1.len() as i64, l1 - l0];
+                    o.extend(flat_frames::<$S, 2>(&fb1[..]));
+                    rec.push(o);
+                    let l2 = live();
+                    let fb2 = dasp_slice::from_boxed_frame_slice::<Box<[[$S; 2]]>, [$S; 2]>(fb1);
+                    let l3 = live();
+                    let mut o = vec![1, b(fb2.as_ptr() as usize == q), fb2.len() as i64, l3 - l2];
+                    o.extend(flat_frames::<$S, 2>(&fb2[..]));
+                    rec.push(o);
+                }
+            }
+        }
+        // the free-function forms of the real conversions (N = 2): samples -> frames -> samples
+        {
+            let l0 = live();
+            let bx: Box<[$S]> = d.iter().map(|&x| <$S as Smp>::from_i64(x)).collect::<Vec<$S>>().into_boxed_slice();
+            let l1 = live();
+            rec.push(vec![4, l1 - l0]);
+            let p = bx.as_ptr() as usize;
+            let a0 = live();
+            let r = dasp_slice::to_boxed_frame_slice::<Box<[$S]>, [$S; 2]>(bx);
+            let a1 = live();
+            match r {
+                None => rec.push(vec![0, a1 - a0]),
+                Some(fb) => {
+                    let mut o = vec![1, b(fb.as_ptr() as usize == p), fb.len() as i64, a1 - a0];
+                    o.extend(flat_frames::<$S, 2>(&fb[..]));
+                    rec.push(o);
+                    let c0 = live();
+                    let sb = dasp_slice::to_boxed_sample_slice::<Box<[[$S; 2]]>, $S>(fb);
+                    let c1 = live();
+                    let mut o = vec![1, b(sb.as_ptr() as usize == p), sb.len() as i64, c1 - c0];
+                    o.extend(flat_samples::<$S>(&sb[..]));
+                    rec.push(o);
+                    let e0 = live();
+                    drop(sb);
+                    let e1 = live();
+                    rec.push(vec![4, e1 - e0]);
+                }
+            }
+        }
+        out.extend(rec.iter().map(|o| obs(o[0], &o[1..])));
+        out.join(";")
+    }};
+}
+
+fn ident_case<S: Smp>(g: &Vec<Vec<i64>>) -> String {
+    ident_body!(S, g)
+}
+
 fn main() {
     serve(|line| {
         let kind = line.split_whitespace().next().unwrap_or("");
@@ -607,6 +729,13 @@ fn main() {
                 2 => boxed_case::<f32>(h[1], &g),
                 3 => boxed_case::<I24>(h[1], &g),
                 _ => boxed_case::<u64>(h[1], &g),
+            },
+            "I" => match h[0] {
+                0 => ident_case::<u8>(&g),
+                1 => ident_case::<i16>(&g),
+                2 => ident_case::<f32>(&g),
+                3 => ident_case::<I24>(&g),
+                _ => ident_case::<u64>(&g),
             },
             "Z" => op_case(h[0], h[1], h[2], &g),
             other => panic!("unknown case kind {}", other),
